@@ -234,6 +234,8 @@ def view_cases(rng, n):
                     if op == 'set':
                         if isinstance(key, int):
                             k = 1
+                        if rng.random() < 0.35:
+                            k = None            # `view[i] = None` / `view[a:b] = None` : the documented delete forms
                         v[pk] = k
                     elif op == 'del':
                         del v[pk]
@@ -265,6 +267,119 @@ def view_cases(rng, n):
                 c['idx'] = idx
             cases.append(c)
             impl.append(out)
+    return cases, impl
+
+
+def _apply_view_op(v, op, node):
+    """run one mutating view operation `op` = (name, params...) on the real view `v`"""
+    name = op[0]
+    if name == 'set':
+        v[slice(*op[1]) if isinstance(op[1], list) else op[1]] = op[2]
+    elif name == 'del':
+        del v[slice(*op[1]) if isinstance(op[1], list) else op[1]]
+    elif name == 'replace':
+        v.replace(op[1])
+    elif name == 'remove':
+        v.remove()
+    elif name == 'insert':
+        v.insert(op[2], op[1])
+    elif name in ('append', 'prepend'):
+        getattr(v, name)(1)
+    else:
+        getattr(v, name)(op[1])
+
+
+def _view_ops_small():
+    """the mutating operations with a small deterministic parameter set"""
+    ops = []
+    for i in (0, -1, 1):
+        ops.append(('set', i, 1))
+        ops.append(('set', i, None))
+        ops.append(('del', i))
+    for sl in ([None, None], [1, None], [None, -1], [0, 1], [1, 1]):
+        for k in (None, 0, 2):
+            ops.append(('set', sl, k))
+        ops.append(('del', sl))
+    for k in (0, 1, 2):
+        ops.append(('replace', k))
+        ops.append(('extend', k))
+        ops.append(('prextend', k))
+    ops.append(('remove',))
+    ops.append(('append',))
+    ops.append(('prepend',))
+    for i in (0, 1, -1, 'end', 7):
+        ops.append(('insert', i, 1))
+    return ops
+
+
+def _model_case(op, st, sp, ln, la):
+    name = op[0]
+    c = {'f': 'C03.view', 'start': st, 'stop': sp, 'len': ln, 'len_after': la}
+    if name in ('set', 'del'):
+        c['op'] = name
+        c['key'] = op[1]
+    elif name == 'remove':
+        c['op'] = 'replace'
+    elif name == 'insert':
+        c['op'] = 'insert'
+        c['idx'] = op[1]
+    else:
+        c['op'] = name
+    return c
+
+
+def view_history_cases(rng, n_random, full_product):
+    """Multi-step histories on the SAME view object, bounded views created by slicing included.  Deterministic first:
+    product of field lengths x windows x pairs of operations; then random longer histories.  After every step the
+    indices handed to the base node, the view's (_start, _stop), len(view) and the elements it shows are compared with the
+    model (pre-state of each step = the real view's state, so the first diverging step is the one reported)."""
+    from fst import FST
+    cases, impl = [], []
+    ops = _view_ops_small()
+
+    def run(ln, w0, w1, hist):
+        node = FST('[' + ', '.join('abcdef'[:ln]) + ']')
+        v = node.elts if w0 is None else node.elts[w0:w1]
+        for op in hist:
+            st, sp = v._start, v._stop
+            before = len(node.a.elts)
+            del _SIM_LOG[:]
+            try:
+                _apply_view_op(v, op, node)
+                rec = _SIM_LOG[0] if _SIM_LOG else None
+                if rec is None:
+                    out = 'no-call'
+                elif rec[0] == 'slice':
+                    out = {'s': rec[1], 'e': rec[2], 'single': False, 'view': [v._start, v._stop]}
+                else:
+                    out = {'s': rec[1], 'e': rec[1] + 1, 'single': True, 'view': [v._start, v._stop]}
+            except IndexError:
+                out = 'IndexError'
+            cases.append(_model_case(op, st, sp, before, len(node.a.elts)))
+            impl.append(out)
+            # the window the view shows now, against the model's `base` of the view state it now has
+            a, b, _ = v._base_indices()
+            cases.append({'f': 'C03.view', 'start': v._start if False else a, 'stop': b, 'len': len(node.a.elts), 'op': 'base'})
+            impl.append([a, b, [a, b]])
+            if len(v) != b - a or a > b or b > len(node.a.elts):
+                cases.append({'f': 'C03.view', 'start': a, 'stop': b, 'len': len(node.a.elts), 'op': 'base'})
+                impl.append('ill-formed window')
+
+    with spied({'_put_slice': _sim_put_slice, '_put_one': _sim_put_one}):
+        lens = (4,) if not full_product else (2, 3, 4, 5)
+        for ln in lens:
+            wins = [(None, None)] + [(a, b) for a in range(ln + 1) for b in range(a, ln + 1)]
+            if not full_product:
+                wins = [(None, None), (1, 3), (0, 2), (1, 4), (2, 2), (1, 2)]
+            for w0, w1 in wins:
+                for o1 in ops:
+                    for o2 in ops:
+                        run(ln, w0, w1, [o1, o2])
+        for _ in range(n_random):
+            ln = rng.randint(0, 6)
+            a = rng.randint(0, ln)
+            b = rng.randint(a, ln)
+            run(ln, a, b, [rng.choice(ops) for _ in range(rng.randint(3, 5))])
     return cases, impl
 
 
